@@ -835,6 +835,14 @@ class Path:
                 raise Unsupported("code writes a ghost field")
             self.hwrite(ref, tgt.attr, v)
             return
+        if isinstance(tgt, ast.Subscript) and isinstance(tgt.slice, ast.Slice):
+            sl = tgt.slice
+            base = self.ev(tgt.value, env)
+            if isinstance(base.s, SeqS) and sl.lower is None and sl.upper is None and sl.step is None:
+                # x[:] = seq : the whole content is replaced (in place; value semantics of the holder make it an assignment)
+                self.assign(tgt.value, ops.coerce(self.fix_empty(self.as_iter_seq(v) if not isinstance(v.s, SeqS) or v.t is not None else v, base.s), base.s))
+                return
+            raise Unsupported("slice assignment other than x[:] = ...")
         if isinstance(tgt, ast.Subscript):
             base = self.ev(tgt.value, env)
             if isinstance(base.s, MapS):
@@ -1011,21 +1019,38 @@ class Path:
             env.alloc = a2
 
     def callees_of(self, callnode):
-        """contracts possibly invoked by a call node (syntactic resolution, used for write sets)"""
+        """contracts possibly invoked by a call node (used for write sets / frames): resolved through the receiver's sort where it can
+        be evaluated, by method name over all classes otherwise (coarse but sound)"""
         f = callnode.func
         out = []
         if isinstance(f, ast.Attribute):
-            for cc in self.unit.classes.values():
-                pass
             name = f.attr
+            if isinstance(f.value, ast.Name) and f.value.id not in self.env.locals and f.value.id not in self.unit.classes:
+                dotted = f.value.id + "." + f.attr            # module function (os.remove, bisect.bisect_left, ...)
+                return [self.unit.env[dotted]] if dotted in self.unit.env else []
+            rv = None
+            try:
+                with PureGuard(self):
+                    rv = self.ev(f.value, self.env.spec_view())
+            except Exception:
+                rv = None
+            if rv is not None and isinstance(rv.s, OptS):
+                rv = V(None, rv.s.inner)
+            if rv is not None and isinstance(rv.s, (SeqS, MapS, TupS)) :
+                return []                                      # builtin container method: no heap frame of its own
+            if rv is not None and isinstance(rv.s, RefS):
+                fc = self.eng.find_contract(rv.s.cls, name)
+                if fc is not None:
+                    return [fc]
+                d = self.eng.field_decl(rv.s.cls, name)
+                if d is not None and isinstance(d[1], RefS):
+                    fc = self.eng.find_contract(d[1].cls, "__call__")
+                    return [fc] if fc is not None else []
+                return []
             for cn in self.unit.classes:
                 fc = self.eng.find_contract(cn, name)
                 if fc is not None and fc not in out:
                     out.append(fc)
-            if isinstance(f.value, ast.Name):
-                dotted = f.value.id + "." + f.attr
-                if dotted in self.unit.env:
-                    out.append(self.unit.env[dotted])
         elif isinstance(f, ast.Name):
             if f.id in self.unit.functions:
                 out.append(self.unit.functions[f.id])
@@ -1035,8 +1060,19 @@ class Path:
                 fc = self.eng.find_contract(f.id, "__init__")
                 if fc is not None:
                     out.append(fc)
-            if f.id == "len":
-                pass
+            qual = self.fc.qualname + ".<" + f.id + ">"
+            if qual in self.unit.functions:
+                out.append(self.unit.functions[qual])
+            if f.id == "len" and callnode.args:
+                try:
+                    with PureGuard(self):
+                        rv = self.ev(callnode.args[0], self.env.spec_view())
+                    if isinstance(rv.s, RefS):
+                        fc = self.eng.find_contract(rv.s.cls, "__len__")
+                        if fc is not None:
+                            out.append(fc)
+                except Exception:
+                    pass
         return out
 
     def havoc_field(self, key):
